@@ -33,11 +33,21 @@ META = {
     "not_decided": "all estimator classes / dtypes of third-party libraries; that a batch call equals row-wise calls "
                    "(a property of the wrapped model)",
 }
-MIN_INSTANCES = {"SHAPE": 3, "INPUT": 2, "WIRING": 4, "RIVER": 3, "DISPATCH": 3, "NPAPI": 1}
+MIN_INSTANCES = {"SHAPE": 3, "INPUT": 2, "WIRING": 4, "RIVER": 3, "DISPATCH": 3, "NPAPI": 1, "COPY": 3}
 FLAT = (".flatten", ".ravel")
 
 
 def check(run):
+    _check_own(run)
+    # COPY: a copied wrapper keeps its model function, its feature order and its label memory
+    from .copylib import copy_protocol
+    prog = run.prog
+    for cls in [c for c in (prog.find_class(n) for n in ("SklearnWrapper", "TorchWrapper", "RiverWrapper")) if c is not None]:
+        if cls is not None:
+            copy_protocol(run, prog, cls)
+
+
+def _check_own(run):
     prog = run.prog
     W = prog.find_class("Wrapper")
     run.need(W is not None, "anchor class Wrapper vanished")
